@@ -245,7 +245,13 @@ def run_instance(ctx, sh):
     system = System()
     system.config = ("/load/7/accepted/traj.xyz", 3)
     system.order = [ctx.real("order")]
-    system.ekin = None if (old_zero and eng == "gromacs") else (ctx.real("ekin_old", positive=True) if eng == "gromacs" else None)
+    # the phase point may carry a stored kinetic energy (from the energy file of the run that produced it, in that file's
+    # units): GROMACS (genvel) is documented to use it as the old kinetic energy; the other engines compute it from the
+    # velocities they read, so the stored value -- arbitrary here -- must not enter dek
+    if eng == "gromacs":
+        system.ekin = None if old_zero else ctx.real("ekin_old", positive=True)
+    else:
+        system.ekin = ctx.real("ekin_stored", positive=True) if ctx.choice(2, "stored-ekin") else None
     settings = {}
     if sh["zm"] != "absent":
         settings["zero_momentum"] = sh["zm"] == "true"
